@@ -342,6 +342,28 @@ def run_cell(name, params, plan, seed=7, n_draws=4):
         return ("repointing-not-clean", "after re-pointing, Dist%s(%s) drew %s; a fresh "
                 "instance on an identical stream draws %s (stale cached state?)"
                 % (name, params, after, fresh)), info
+    # re-seeding the stream a distribution already uses and assigning that same
+    # object again (streams live in a StreamInformation over replications and are
+    # re-seeded per replication): from then on the draws are those of a fresh
+    # instance on an equally seeded stream
+    for warm in (1, 2, 3):
+        try:
+            sm = MersenneTwister(seed)
+            dr = build(name, params, sm)
+            for _ in range(warm):
+                dr.draw()
+            sm.set_seed(seed + 11)
+            dr.stream = sm
+            after = [dr.draw() for _ in range(3)]
+            df = build(name, params, MersenneTwister(seed + 11))
+            fresh = [df.draw() for _ in range(3)]
+        except Exception:
+            break               # (parameter regimes that cannot draw are judged above)
+        if after != fresh or dr.stream is not sm:
+            return ("repointing-not-clean", "Dist%s(%s) on a MersenneTwister: after %d draw(s) "
+                    "the stream was re-seeded (set_seed) and assigned again (d.stream = same "
+                    "object); it then drew %s, a fresh instance on an equally seeded stream "
+                    "draws %s (stale cached state?)" % (name, params, warm, after, fresh)), info
     # re-pointing to a different stream object that compares equal (same seed,
     # same position): identity decides which stream is consumed, not equality
     for warm in (0, 1):
